@@ -4,6 +4,7 @@ import FV.IoRecvRetry
 import FV.IoArb
 import FV.IoKinds
 import FV.IoAsyncSpec
+import FV.IoAsyncSeq
 /-! # C09 — IO faults surface as errors; nothing is lost or duplicated by them -/
 namespace FV.Props
 open FV
@@ -144,4 +145,13 @@ theorem C09_async_send_fault (msg : Bytes) (evs : List AEv) (sink0 : Bytes) :
         j < msg.length ∧ ((arun msg evs ⟨0, sink0, false⟩).2.1.poisoned = true ↔ j ≠ 0)) ∧
       (arun msg evs ⟨0, sink0, false⟩).1 ≠ .pending :=
   arun_send_fault msg evs sink0
+
+/-- **C09 (b) for a whole async session.** From an unpoisoned async sender, after any script of `poll_write` / `poll_flush` outcomes —
+`Pending` anywhere, accepted sizes, `Ok(0)`, errors of any kind, or the pipe never answering again — and any sequence of sends: the
+sink holds what it held, then every message that went out whole (completed sends, and sends whose flush failed after the last byte),
+in order, then a possibly empty prefix of *one* further message, and nothing after it. -/
+theorem C09_async_session_sink_shape (ms : List Bytes) (st : ASeqSt) (hp : st.poisoned = false) :
+    ∃ part : Bytes, (asendSeq ms st).2.sink = st.sink ++ flat (whole ms (asendSeq ms st).1) ++ part ∧
+      (part = [] ∨ ∃ m ∈ ms, ∃ j, 0 < j ∧ j ≤ m.length ∧ part = m.take j) :=
+  asendSeq_sink_shape ms st hp
 end FV.Props
